@@ -702,6 +702,44 @@ fn w4_hostile(ctx: &mut Ctx) {
     }
 }
 
+/// extend / collect from iterators of every size_hint shape, at lengths where the subject crosses a word boundary, the
+/// inline/heap limit of `Bv` or its reserved capacity while the hint said it would not.
+fn w_iter_hints(ctx: &mut Ctx) {
+    let mut rng = Rng::derive(ctx.seed, 0x0718, 0);
+    for ty in 0..NTYPES {
+        if !ctx.mine() {
+            continue;
+        }
+        let cap = TYPE_FIXED_CAP[ty];
+        let limit = cap.unwrap_or(400);
+        let w = TYPE_WORD_BITS[ty];
+        let mut lens = vec![0usize, 1, w - 1, w, w + 1, 60, 64, 100, 120, 126, 127, 128, 129, 190, 192];
+        lens.retain(|n| *n <= limit);
+        lens.sort();
+        lens.dedup();
+        for n in lens {
+            for k in [0usize, 1, 2, 7, 8, 9, 29, 63, 64, 65, 70, 130, 200] {
+                if n + k > limit {
+                    continue;
+                }
+                for kind in 0..7u8 {
+                    let init = Spec::new(ty, gen::random_bits(n, &mut rng), if kind % 2 == 0 { Via::Set } else { via_for(ty, &mut rng) });
+                    let add = gen::random_bits(k, &mut rng);
+                    // (every step must stay within a fixed capacity: exceeding it is a legitimate panic, C19's subject)
+                    let mut steps = vec![Step::Extend(add.clone(), kind)];
+                    if n + k + 1 <= limit {
+                        steps.push(Step::Push(true));
+                    }
+                    judge(ctx, &history_case(&init, &steps), "W-iterator-size-hints");
+                    if (n == 0 || n == 64) && k + 3 <= limit {
+                        judge(ctx, &history_case(&init, &[Step::Collect(add, kind), Step::Extend(vec![true, false, true], kind)]), "W-iterator-size-hints");
+                    }
+                }
+            }
+        }
+    }
+}
+
 fn w_edit_pairs(ctx: &mut Ctx, tier: Tier) {
     // all (len_subject, len_operand) <= L x lattice values x {append, prepend, insert at every i} per type pair
     let l = tier.pick(4, 12, 16);
@@ -826,16 +864,19 @@ pub fn run(ctx: &mut Ctx) {
         "C03" => {
             w1_two_step(ctx, tier);
             w4_hostile(ctx);
+            w_iter_hints(ctx);
             w3_histories(ctx, tier.pick(40, 2_500, 60_000), tier.pick(12, 40, 120), tier.pick(200, 400, 700));
         }
         "C07" => {
             w_edit_pairs(ctx, tier);
+            w_iter_hints(ctx);
             w1_two_step(ctx, tier);
             w3_histories(ctx, tier.pick(60, 8_000, 60_000), tier.pick(15, 60, 200), tier.pick(200, 400, 900));
             w_growth(ctx, tier);
         }
         "C18" => {
             w_capacity_grid(ctx, tier);
+            w_iter_hints(ctx);
             w3_histories(ctx, tier.pick(60, 600_000, 3_000_000), tier.pick(15, 60, 300), tier.pick(200, 400, 900));
             w4_hostile(ctx);
             w_growth(ctx, tier);
